@@ -115,7 +115,19 @@ def run_batches(ctx: Ctx):
         system.fit(max_iter=rng.randint(3, 6), num_refine=10, max_tol=-1.0, update_bounds=False)
         shape = tuple(rng.randint(1, 3) for _ in range(rng.randint(1, 3)))
         x = system.sample_inputs(shape)
-        case = {'system': n, 'shape': shape, 'components': [(s['name'], s['inputs'], s['levels']) for s in spec]}
+        on_nodes = rng.random() < 0.6
+        if on_nodes:      # some coordinates exactly on training nodes (the interpolator special-cases them per batch)
+            for comp in system.components:
+                if not comp.has_surrogate:
+                    continue
+                for v in comp.inputs:
+                    g = list(comp.training_data.x_grids.get(str(v), []))
+                    if str(v) in x and g:
+                        arr = np.array(x[str(v)], dtype=float)
+                        mask = np.random.rand(*arr.shape) < 0.4
+                        arr[mask] = np.random.choice(g, size=int(mask.sum()))
+                        x[str(v)] = arr
+        case = {'system': n, 'shape': shape, 'components': [(s['name'], s['inputs'], s['levels']) for s in spec], 'some_coordinates_on_nodes': on_nodes}
         ctx.case(case, nontrivial=int(np.prod(shape)) > 1, kind='system-batch')
         N = int(np.prod(shape))
         names = list(x.keys())
@@ -197,6 +209,7 @@ def run(ctx: Ctx):
     run_batches(ctx)
     run_nan_batches(ctx)
     run_positional_keys(ctx)
+    run_loop_batches(ctx)
 
 
 def run_nan_batches(ctx: Ctx):
@@ -239,6 +252,30 @@ def run_nan_batches(ctx: Ctx):
                 if not systems.floats_close(np.ravel(y[k])[j], np.ravel(ys[k])[0]):
                     ctx.violate('C10:batch-vs-single', f'sample {j} of {k}: {float(np.ravel(y[k])[j])} in a batch containing a NaN-producing sample, '
                                 f'{float(np.ravel(ys[k])[0])} alone', case); break
+
+
+def run_loop_batches(ctx: Ctx):
+    """feedback systems with an iteration limit that only some samples of the batch meet: every sample's result (values and NaN pattern)
+    is the one it has when evaluated alone"""
+    rng = ctx.rng
+    for n in range(ctx.pick(6, 40)):
+        system, spec = systems.random_loop_system(rng, size=rng.randint(2, 3), name=f'lb{n}', extra=False, downstream=True)
+        N = rng.randint(2, 5)
+        xs = {f'x{i}': np.array([round(rng.random(), 4) for _ in range(N)]) for i in range(spec['size'])}
+        maxit = rng.choice([1, 2, 3, 4, 6]); tol = rng.choice([1e-3, 1e-8, 1e-12])
+        case = {'loop_batch': n, 'size': spec['size'], 'x': {k: v.tolist() for k, v in xs.items()}, 'max_fpi_iter': maxit, 'fpi_tol': tol}
+        ctx.case(case, nontrivial=True, kind='loop-batch')
+        try:
+            y = system.predict(xs, use_model='best', max_fpi_iter=maxit, fpi_tol=tol, anderson_mem=1)
+            for j in range(N):
+                ys = system.predict({k: v[j:j + 1] for k, v in xs.items()}, use_model='best', max_fpi_iter=maxit, fpi_tol=tol, anderson_mem=1)
+                for k in y:
+                    a, b = float(np.ravel(y[k])[j]), float(np.ravel(ys[k])[0])
+                    if not ((a != a and b != b) or abs(a - b) <= 1e-9 * (1 + abs(b))):
+                        ctx.violate('C10:batch-vs-single', f'feedback system, sample {j} of {k}: {a} in the batch, {b} alone (iteration limit {maxit})',
+                                    {**case, 'sample': j}); break
+        except Exception as e:
+            ctx.violate('C10:predict-raises', f'{type(e).__name__}: {e}', case)
 
 
 def run_positional_keys(ctx: Ctx):
